@@ -147,6 +147,7 @@ func (w *World) EvalQuiescent() {
 					w.verdict("V22:message-delivered-while-not-announced-open")
 				} else if s.Epoch < view {
 					w.verdict("V22:message-delivered-in-later-epoch submitted=%d delivered=%d", s.Epoch, view)
+					w.verdict("V20:older-epoch-message-forwarded submitted=%d forwarded-in=%d", s.Epoch, view)
 				} else if s.Epoch > view {
 					w.verdict("V20:message-from-future-epoch-forwarded submitted=%d view=%d", s.Epoch, view)
 				}
